@@ -75,7 +75,10 @@ def baselines(seed):
         W.plugin("dump_cgroup_overview", cgroup="wl/*", always=True),
         W.plugin("pressure_above", cgroup="/", resource="memory", threshold=1, duration=0),
     ]
-    for bi, plugin in enumerate(KG.PLUGINS + ["senpai"]):
+    plugins = KG.PLUGINS + ["senpai"]
+    # the second half repeats the plugins with the probe ruleset LAST: the probe reads every field of every cgroup, so where it
+    # runs first the rest of the tick works on warm caches (a child listed by its parent before anybody resolves it)
+    for bi, plugin in enumerate(plugins + plugins):
         cgs = world(rng)
         rulesets = [copy.deepcopy(probe)]
         if plugin == "senpai":
@@ -92,8 +95,11 @@ def baselines(seed):
             args = dict(KILL_ARGS[plugin])
             rulesets.append({"name": "rk", "post_action_delay": "0", "detectors": [["g", W.plugin("exists", cgroup="wl")]],
                              "actions": [W.act("pre"), {"name": plugin, "args": args}, W.act("post")]})
-        for k, d in enumerate(dets[bi::2] if bi % 2 else dets[::2]):
+        b0 = bi % len(plugins)
+        for k, d in enumerate(dets[b0::2] if b0 % 2 else dets[::2]):
             rulesets.append({"name": "rd%d" % k, "post_action_delay": "0", "detectors": [["g", d]], "actions": [W.act("da%d" % k)]})
+        if bi >= len(plugins):
+            rulesets.append(rulesets.pop(0))
         ticks = [{"step_ns": 10**9, "ops": []}]
         for t in (1, 2):
             ops = []
@@ -127,9 +133,11 @@ def fault_cases(seed, tier):
         ks = [sum(1 for e in evs if e.get("ev") == "acc") for evs in ticks]
         ctl = [[e for e in evs if e.get("ev") == "probe"][0]["cgs"] for evs in ticks]
         ctl = [{k: {f: val for f, val in c[k].items() if f != "id"} for k in c if k.startswith("ctl")} for c in ctl]
-        infos.append({"ks": ks, "ctl": ctl})
+        listings = [(ti, e["k"], e["path"][len("/cg/"):]) for ti, evs in enumerate(ticks) for e in evs if e.get("ev") == "acc" and e["kind"] == "fdopendir" and e["path"].startswith("/cg/")]
+        infos.append({"ks": ks, "ctl": ctl, "listings": listings})
     quick = tier != "thorough"
-    use = [0, 5] if quick else list(range(len(bases)))
+    nb = len(bases) // 2  # probe-first baselines; nb.. = the same plugins with the probe last (F4 only)
+    use = [0, 5] if quick else list(range(nb))
     n = 0
 
     def mk(bi, kind, desc, **fault):
@@ -198,14 +206,24 @@ def fault_cases(seed, tier):
             yield mk(bi, "F6", {"setxattr_trusted": xf}, xattr_fail=xf)
     # F4: vanish / re-create at access index k
     pts = []
-    for bi in (use if quick else range(len(bases))):
+    for bi in (use if quick else range(nb)):
         for tick, K in enumerate(infos[bi]["ks"]):
             for k in range(K):
                 for rel in WL:
                     for op in ("rm", "rmmk"):
                         pts.append((bi, tick, k, rel, op))
+    # F4d: a child removed just before its parent's children are listed (a cgroup that was resolved and is then missing from its
+    # parent's listing), every such point of every baseline
+    listed = [(bi, tick, k, rel, "rm") for bi in range(len(bases)) for tick, k, par in infos[bi]["listings"] for rel in WL if rel.rsplit("/", 1)[0] == par]
     if quick:
-        pts = rng.sample(pts, 300)
+        # (every kill plugin's baseline, not only the two the other fault classes use in this tier)
+        more = [(bi, tick, k, rel, op) for bi in range(len(bases)) if bi not in use for tick, K in enumerate(infos[bi]["ks"]) for k in range(K)
+                for rel in WL for op in ("rm", "rmmk")]
+        pts = rng.sample(pts, 300) + rng.sample(more, 300) + rng.sample(listed, min(len(listed), 400))
+    else:
+        late = [(bi, tick, k, rel, op) for bi in range(nb, len(bases)) for tick, K in enumerate(infos[bi]["ks"]) for k in range(K)
+                for rel in WL for op in ("rm", "rmmk")]
+        pts = pts + [p_ for p_ in listed if p_[0] >= nb] + rng.sample(late, 3000)
     for bi, tick, k, rel, op in pts:
         scn = bases[bi][0]
         ops = [{"op": "rm", "cg": rel}]
